@@ -166,6 +166,12 @@ def _worker(args) -> dict:
         except Exception as e:  # harness error (generator, oracle bug...)
             if holder["fail"] is not None and isinstance(e, Violation):
                 raise
+            if comp.get("flaky_is_violation") and holder["fail"] is not None and type(e).__name__ in ("Flaky", "FlakyFailure"):
+                # the same case failed once and behaved differently when the library repeated it in this process:
+                # for a property about history independence that is the violation itself, not a broken harness
+                case, clause, detail, extra = holder["fail"]
+                failure = {"case": case, "clause": clause, "detail": detail + "\n(the outcome changed when the same case was repeated in the same process)", "extra": extra}
+                return {"stats": stats.to_dict(), "failure": failure, "comp": comp_name, "shard": shard, "wall": time.time() - t0}
             return {
                 "error": f"{type(e).__name__}: {e}\n{traceback.format_exc()}",
                 "comp": comp_name,
